@@ -12,15 +12,20 @@ Norm(n, d) == LET s == IF d < 0 THEN -1 ELSE 1
               IN IF n = 0 THEN <<0, 1>> ELSE <<(s * n) \div g, (s * d) \div g>>
 R(n) == <<n, 1>>
 Frac(n, d) == Norm(n, d)
-Add(a, b) == Norm(a[1] * b[2] + b[1] * a[2], a[2] * b[2])
+\* (denominators are combined through their lcm and products are cross-cancelled first, so that
+\*  intermediate values stay small: TLC integers are 32 bit)
+Add(a, b) == LET g == GCD(a[2], b[2])  l == (a[2] \div g) * b[2]
+             IN Norm(a[1] * (l \div a[2]) + b[1] * (l \div b[2]), l)
 Neg(a) == <<-a[1], a[2]>>
 Sub(a, b) == Add(a, Neg(b))
-Mul(a, b) == Norm(a[1] * b[1], a[2] * b[2])
+Mul(a, b) == IF a[1] = 0 \/ b[1] = 0 THEN <<0, 1>>
+             ELSE LET g1 == GCD(AbsI(a[1]), b[2])  g2 == GCD(AbsI(b[1]), a[2])
+                  IN Norm((a[1] \div g1) * (b[1] \div g2), (a[2] \div g2) * (b[2] \div g1))
 Inv(a) == Norm(a[2], a[1])
 Div(a, b) == Mul(a, Inv(b))
-Lt(a, b) == a[1] * b[2] < b[1] * a[2]
-Le(a, b) == a[1] * b[2] <= b[1] * a[2]
-Eq(a, b) == a[1] * b[2] = b[1] * a[2]
+Lt(a, b) == Sub(a, b)[1] < 0
+Le(a, b) == Sub(a, b)[1] <= 0
+Eq(a, b) == a = b
 AbsR(a) == <<AbsI(a[1]), a[2]>>
 IsZero(a) == a[1] = 0
 
